@@ -4,7 +4,8 @@
      S <seq> <next> <converters> <fixed|orig>
      P <def> <err> <data> <rel> <group> <idsok> <main> <sub> <ids>     parse table entry (query.Parse, from the harness)
      A <name> <color> <def> | D <name> | UC <name> <color> | UQ <name> <def> | UN <name> <newname>
-     UV <name> <converters> | UA <name> <ids> | UD <name> <ids> | N (restart of the service: no-op) *)
+     UV <name> <converters> | UA <name> <ids> | UD <name> <ids> | N (restart of the service: no-op)
+     JS <name> (a tagging job starts for the tag) | JD (its completion runs) *)
 module M = C11_model
 
 let rec pos_of_int (i : int) : M.positive =
@@ -71,6 +72,7 @@ let () =
   let oc = open_out Sys.argv.(2) in
   let st = ref (M.init_state [] M.N0) in
   let orig = ref false in
+  let job : (M.string * M.tag) option ref = ref None in
   let table : (Stdlib.String.t, M.parse_result) Hashtbl.t = Hashtbl.create 64 in
   let parse (s : M.string) : M.parse_result =
     match Hashtbl.find_opt table (string_of_coq s) with
@@ -93,6 +95,7 @@ let () =
              Hashtbl.reset table;
              st := M.init_state (names a.(3)) (n_of_int (int_of_string a.(2)));
              orig := (a.(4) = "orig");
+             job := None;
              output_string oc ("S " ^ a.(1) ^ "\n")
          | "P" ->
              let r =
@@ -102,6 +105,13 @@ let () =
                          M.p_group = flag a.(5); M.p_ids = (if flag a.(6) then Some (nums a.(9)) else None) }
              in
              Hashtbl.replace table (unhex a.(1)) r
+         | "JS" ->   (* a tagging job starts for the tag: it gets a copy of the stored tag *)
+             job := (match M.get (M.tags !st) (cs a.(1)) with Some t -> Some (cs a.(1), t) | None -> None);
+             output_string oc ("R ok | " ^ dump !st ^ "\n")
+         | "JD" ->   (* its completion closure runs *)
+             (match !job with Some (n, snap) -> st := M.complete_job !st n snap | None -> ());
+             job := None;
+             output_string oc ("R ok | " ^ dump !st ^ "\n")
          | "N" -> output_string oc ("R ok | " ^ dump !st ^ "\n")    (* restart: the model state is unchanged *)
          | "A" -> call (M.CAdd (cs a.(1), cs a.(2), cs a.(3)))
          | "D" -> call (M.CDel (cs a.(1)))
